@@ -209,6 +209,46 @@ def h_representations(ctx, seq, fv):
     ctx.prove("C10.representation_conversion_is_reversible", AND(EQ(trip.a, a0), trip.representation == reps[0]), info=info)
 
 
+def replay_exponent_history(sc):
+    """real models: the exponent before and after the triplet is re-expressed in other representations (the law has not changed)"""
+    out = []
+    for model in [sc["model"]] if sc.get("model") else ["HEM", "MERTON", "VG", "CGMY"]:
+        m = MODELS[model](concrete_params(model))
+        xs = [0.7, -2.3, 11.0]
+        before = [complex(m.levy_exponent(x)) for x in xs]
+        start = m.levy_triplet.representation
+        for rep in sc.get("reps") or ["CENTER", "ONEONE", "TILDE"]:
+            try:
+                m.levy_triplet.set_representation(LevyRepresentation[rep])
+            except Exception:
+                continue  # not available for this measure (ZERO with infinite variation)
+            after = [complex(m.levy_exponent(x)) for x in xs]
+            for x, b, a in zip(xs, before, after):
+                if abs(a - b) > 1e-10 * max(1.0, abs(b)):
+                    out.append(f"{model} declared {start.name}, re-expressed in {rep}: exponent at {x} is {a!r}, it was {b!r}")
+    return bool(out), "; ".join(out[:3]) if out else "exponent unchanged by representation changes"
+
+
+def h_exponent_history(ctx, model, reps):
+    """the exponent of a model object does not depend on the representations its triplet has been re-expressed in since construction"""
+    prm = make_params(ctx, model)
+    mdl = MODELS[model](prm)
+    # HEM: any real argument; Merton / VG (exp / log of a complex number with a symbolic imaginary part is outside the engine): the arguments
+    # -i and -i/2, where the exponent is the real cumulant generating function at 1 and 1/2
+    xs = [ctx.real("x")] if model == "HEM" else [-1j, -0.5j]
+    if model == "VG":  # the generating function exists at s iff 1 - theta nu s - sigma^2 nu s^2 / 2 > 0
+        for sv in (1, Fraction(1, 2)):
+            ctx.assume(1 - prm.theta * prm.nu * sv - prm.sigma * prm.sigma * prm.nu * sv * sv / 2 > 0)
+    before = [mdl.levy_exponent(x) for x in xs]
+    rp = (replay_exponent_history, lambda m: {"model": model, "reps": list(reps)})
+    for rep in reps:
+        mdl.levy_triplet.set_representation(LevyRepresentation[rep])
+    after = [mdl.levy_exponent(x) for x in xs]
+    for x, b, a in zip(xs, before, after):
+        b, a = SymComplex.lift(b), SymComplex.lift(a)
+        ctx.prove("C10.exponent_unchanged_by_representation_changes", AND(EQ(a.re, b.re), EQ(a.im, b.im)), info={"model": model, "reps": list(reps), "x": str(x)}, replay=rp)
+
+
 def replay_drift(sc):
     m = EXPMODELS[sc["model"]](spot=100.0, r=0.03, d=0.01, parameters=concrete_params(sc["model"]))
     sig = m.levy_triplet.sigma
@@ -227,6 +267,7 @@ def h_martingale(ctx, model):
     else:
         prm = make_params(ctx, model)
     m = EXPMODELS[model](spot=spot, r=r, d=d, parameters=prm)
+    a_declared = m.levy_model.levy_triplet.a  # the drift the model declares, read before anything can re-express the triplet
     sig = m.levy_triplet.sigma
     one = SymComplex(1.0, 0.0)
     pj = m.levy_model.levy_exponent_pure_jump(one)
@@ -235,7 +276,7 @@ def h_martingale(ctx, model):
     rp = (replay_drift, lambda mm: {"model": model})
     ctx.prove("C10.direct_simulation_drift_makes_discounted_spot_a_martingale", EQ_RATIONAL(m.process_drift() + sig * sig / 2 + pj, r - d), info=info, replay=rp)
     # route 1: omega = -kappa(1) with kappa(1) = a + sigma^2/2 + phi(1)
-    a = m.levy_model._original_drift
+    a = a_declared
     ctx.prove("C10.omega_is_minus_exponent_at_one", EQ_RATIONAL(m.omega, -(a + sig * sig / 2 + pj)), info=info)
     ctx.prove("C10.model_drift_is_r_minus_d_plus_omega", EQ_RATIONAL(m.drift(), r - d + m.omega), info=info)
     t = ctx.real("t", 0)
@@ -282,6 +323,9 @@ def harnesses(tier):
                 continue
             for fv in (True, False):
                 hs.append(Harness(f"reps.{''.join(map(str, seq))}.{int(fv)}", h_representations, {"seq": seq, "fv": fv}, max_paths=400))
+    for model in ("HEM", "MERTON", "VG"):
+        for reps in (("CENTER",), ("ONEONE", "ZERO")) if q else (("CENTER",), ("ONEONE",), ("TILDE",), ("ONEONE", "ZERO"), ("CENTER", "ONEONE")):
+            hs.append(Harness(f"history.{model}.{'-'.join(reps)}", h_exponent_history, {"model": model, "reps": reps}, max_paths=400, timeout_ms=60000))
     for model in ("BS", "HEM", "MERTON"):
         hs.append(Harness(f"martingale.{model}", h_martingale, {"model": model}, max_paths=400, timeout_ms=90000))
     hs.append(Harness("twin", h_twin, twin="must_fail"))
@@ -290,7 +334,8 @@ def harnesses(tier):
 
 EXPECT = ["C10.cumulant_is_t_times_derivative_of_exponent_at_zero", "C10.exponent_vanishes_at_zero", "C10.first_derivative_of_exponent_is_first_moment_in_declared_representation",
           "C10.second_derivative_of_exponent_is_second_moment", "C10.representation_conversion_is_path_independent", "C10.representation_conversion_is_reversible",
-          "C10.direct_simulation_drift_makes_discounted_spot_a_martingale", "C10.omega_is_minus_exponent_at_one", "C10.forward_from_characteristic_function"]
+          "C10.direct_simulation_drift_makes_discounted_spot_a_martingale", "C10.omega_is_minus_exponent_at_one", "C10.forward_from_characteristic_function",
+          "C10.exponent_unchanged_by_representation_changes"]
 
 
 def main(tier):
